@@ -122,7 +122,7 @@ def build(which, params):
     if which == "chain-trend-spline":
         return vd.Chain([("trend", vd.Trend(1)), ("spline", vd.Spline())]), 1
     if which == "chain-trend-knn":
-        return vd.Chain([("trend", vd.Trend(2)), ("knn", vd.KNeighbors(k=1))]), 1
+        return vd.Chain([("step", vd.Trend(2)), ("step", vd.KNeighbors(k=1))]), 1       # names are labels only (may repeat)
     if which == "vector-of":
         return vd.Vector([vd.Spline(), vd.Chain([("trend", vd.Trend(1)), ("knn", vd.KNeighbors(1))])]), 2
     raise ValueError(which)
